@@ -26,7 +26,7 @@ RULE = ('case = pre-existing sys / threading trace functions (none or a host fun
         'function separately BETWEEN start and shutdown of one cycle) where every shutdown carries a fault assignment: which plugins raise in shutdown() (Exception or '
         'BaseException class), which of 0-3 pending sends fail, whether the sends are still in flight when shutdown starts (gated '
         'per send: failing ones finish first, the others stay parked beyond the point a non-draining shutdown would return), '
-        'whether a thread started before the shutdown keeps running afterwards, whether a REAL snapshot upload (real PushService) '
+        'whether a thread started before the shutdown keeps running afterwards (SCALE families: 40 tracepoints installed), whether a REAL snapshot upload (real PushService) '
         'failed on the channel just before the shutdown (after shutdown() returned no thread running agent code may be alive '
         'and nothing may reach the channel). The first shutdown of a case enumerates ALL '
         'subsets of its fault points (plugins + sends <= 4) across consecutive cases. Run on a real deep.api.Deep with the '
@@ -165,6 +165,10 @@ def gen(rng, tier):
             # shutdown() of an instance that was never started does nothing — in particular a later start() still starts
             head.insert(0, {'op': 'shutdown', 'plugin_faults': [], 'task_faults': [], 'ntask': 0, 'cls': 'exc', 'running': False})
         bg = rng.random() < 0.5
+        # SCALE families: 40 tracepoints installed, a thread started before the shutdown keeps running afterwards
+        scale = 40 if (not base['update'] and not base['no_trace'] and rng.random() < 0.3) else 0
+        if scale:
+            bg = True
         # a real snapshot whose upload fails (once or twice) right before the shutdown
         push_fail = rng.choice([1, 2]) if (not base['no_trace'] and rng.random() < 0.35) else 0
         subsets = list(all_subsets(nplug + ntask))
@@ -181,6 +185,8 @@ def gen(rng, tier):
             if push_fail:
                 sd['push_fail'] = push_fail
             c = dict(base)
+            if scale:
+                c['scale'] = scale
             c['ops'] = head + [sd, {'op': 'hit'}] + ([{'op': 'late_config'}] if bg and rng.random() < 0.6 else []) + tail
             yield c
         if rng.random() < 0.5:
@@ -271,6 +277,9 @@ def corpus():
          'ops': [{'op': 'start'}, {'op': 'start'}, {'op': 'hit'}, dict(sd), {'op': 'hit'}]},
         {'pre_sys': 'h', 'pre_thr': None, 'no_trace': False, 'nplug': 1, 'update': False, 'start_step_fails': 'load_plugins',
          'ops': [{'op': 'start'}, {'op': 'start'}, {'op': 'hit'}, dict(sd), {'op': 'hit'}]},
+        # SCALE: 40 tracepoints installed; a thread started before the shutdown keeps running and must take no action after
+        {'pre_sys': None, 'pre_thr': None, 'no_trace': False, 'nplug': 1, 'scale': 40,
+         'ops': [{'op': 'start'}, {'op': 'hit'}, dict(sd, bg_thread=True), {'op': 'hit'}, {'op': 'late_config'}, {'op': 'hit'}]},
         # D18: a thread started before shutdown keeps running
         {'pre_sys': None, 'pre_thr': None, 'no_trace': False, 'nplug': 1,
          'ops': [{'op': 'start'}, {'op': 'hit'}, dict(sd, bg_thread=True), {'op': 'hit'}, {'op': 'late_config'}, {'op': 'hit'}]},
@@ -372,6 +381,13 @@ def run_case(case, out):
     probe = h.modules['probe'].probe
     trig = build_trigger('hit', h.files['probe'], h.marks['probe']['P'],
                          {'snapshot': 'no_collect', 'log_msg': 'hit {c}', 'fire_count': '-1', 'fire_period': '0'}, [], [])
+    # SCALE: the config carries `scale` tracepoints (the one that is hit + fillers on other lines / other files), so that
+    # whatever the handler does only for large configs (indexes, caches) is in force at shutdown
+    cfg_list = [trig]
+    for i in range(max(0, case.get('scale', 0) - 1)):
+        cfg_list.append(build_trigger(f'fill{i}', h.files['probe'] if i % 3 == 0 else f'verif_other_{i % 7}.py', 1000 + i,
+                                      {'snapshot': 'no_collect', 'log_msg': 'fill', 'fire_count': '-1', 'fire_period': '0'},
+                                      [], []))
     bg = {}
     threads_before = {t.ident for t in threading.enumerate()}
     snap_trig = build_trigger('snap', h.files['probe'], h.marks['probe']['P'], {'fire_count': '-1', 'fire_period': '0'}, [], [])
@@ -420,7 +436,7 @@ def run_case(case, out):
                         if not handler._tp_config:
                             raise core.Infra('the UPDATE of the fake service was not applied within 20 s')
                     else:
-                        handler.new_config([trig])  # the first config arrives
+                        handler.new_config(list(cfg_list))  # the first config arrives
                 snapshot('start', {'raised': raised, 'was_started': was,
                                    'same_timer': deep.poll.timer is timer_before,
                                    'constructed': len([e for e in rec.events if e[1] == 'construct']) - constructed,
@@ -436,7 +452,7 @@ def run_case(case, out):
                 threading.settrace(ht)
                 snapshot('host_set')
             elif kind == 'late_config':
-                handler.new_config([trig])
+                handler.new_config(list(cfg_list))
                 extra = {}
                 if bg.get('thread') is not None and bg['after_done'].is_set() and not bg['gate2'].is_set():
                     bg['gate2'].set()
@@ -1002,7 +1018,8 @@ def label(case, obs):
            ('/retry' if case.get('start_fails_first') else '') + \
            ('/incycle-hostset' if case['no_trace'] and any(o['op'] == 'host_set' for o in case['ops'][:next(
                (k for k, o in enumerate(case['ops']) if o['op'] == 'shutdown'), 0)]) else '') + \
-           (('/startfail-' + case['start_step_fails']) if case.get('start_step_fails') else '')
+           (('/startfail-' + case['start_step_fails']) if case.get('start_step_fails') else '') + \
+           ('/scale40' if case.get('scale') else '')
 
 
 def nontrivial(case, obs):
